@@ -139,7 +139,7 @@ def r01_1(ctx, notify):
     F = ctx.facts
     good = notifying_callees(F, notify)
     bs = value_borrowers(F)
-    ctx.floor("R01.1", len(bs), 3)
+    ctx.floor("R01.1", len(bs), 2)
     for f, sites in bs:
         b = f.built
         nblks = [blk for blk, t in b.calls() if (F.local_callee(f, t) is not None and F.local_callee(f, t).key in good)]
@@ -179,7 +179,7 @@ def r01_2(ctx, notify):
         if f is None:
             ctx.missing("R01.2", STATE + name)
             continue
-        b = f.built
+        b = inl(F, f, keep=lambda g: default_keep(g) or g.kind == "fn", tag="keep-free-fns")  # the hash helper stays a call
         setter_calls = [(blk, t) for blk, t in b.calls() if (F.local_callee(f, t) is not None and F.local_callee(f, t).key in good)]
         if not setter_calls:
             # `cond.then(|| self.set(value))`: the store sits in a closure guarded by the receiver of bool::then
@@ -384,7 +384,7 @@ def r01_6(ctx, init):
     for name in ("get", "read"):
         for f in by_name.get(name, []):
             for lb in logical_bodies(F, f):
-                b = lb.built
+                b = inl(F, lb)
                 if not b:
                     continue
                 ws = writes(b)
@@ -396,7 +396,7 @@ def r01_6(ctx, init):
         for f in by_name.get(name, []):
             found = False
             for lb in logical_bodies(F, f):
-                b = lb.built
+                b = inl(F, lb)
                 if not b:
                     continue
                 for loc, kind, e in writes(b):
